@@ -43,6 +43,10 @@ def gen_tables(keys, M, K, H, n, seed, exhaustive=False):
     return out[:n]
 
 
+class Unmodelled(Exception):
+    """the code did something the model has no action for (it accepted a call the model treats as rejected): the history is not judged further"""
+
+
 def est_table(M, K):
     """the documented estimate of distinct elements for X = 0..M set cells, int(-(M/K) ln(1 - X/M)), by 50-digit arithmetic (TLC has no
     logarithm); -1 for X = M (documented: cannot estimate).  A value within 1e-9 of an integer would make the truncation undecidable here:
@@ -70,6 +74,7 @@ cAmts == {tlc.tla_val(set(p['amts']))}
 cWhos == {tlc.tla_val(set(p['whos']))}
 cChannels == {tlc.tla_val(set(p.get('channels', ['bytes'])))}
 cEstTab == {tlc.tla_val(est_table(p['M'], p['K']))}
+cBad == {tlc.tla_val(set(p.get('bad', [])))}
 ====
 """,
     )
@@ -104,6 +109,7 @@ PROPERTY SaturatedStays
   MaxAdopt = {p.get('maxadopt', 0 if p.get('patch_limits') else 1)}
   Queries = {"TRUE" if p.get('queries') else "FALSE"}
   EstTab <- cEstTab
+  Bad <- cBad
 INIT Init
 NEXT Next
 VIEW {"ViewH" if p.get("histview") else "View"}
@@ -223,6 +229,18 @@ class Ctx:
         if o[0] == "chk":
             key = self.rk(o[2])
             return f.check_alt(f.hashes(key)) if self.alt(o) else f.check(key)
+        if o[0] == "bad":      # a call the library rejects: a hash list that is too short; the caller catches the error and carries on
+            hs = list(f.hashes(self.rk(o[2])))[: self.K - 1]
+            try:
+                if o[3] == 1:
+                    f.add_alt(hs, 1) if self.counting else f.add_alt(hs)
+                elif o[3] == 2:
+                    f.remove_alt(hs, 1)
+                else:
+                    f.check_alt(hs)
+            except Exception:  # noqa
+                return None
+            raise Unmodelled("the malformed call was accepted")
         if o[0] == "est":      # the statistics are queries too
             return (f.estimate_elements(), f.current_false_positive_rate(), str(f))
         if o[0] == "rt":
@@ -346,6 +364,9 @@ class Ctx:
             ret = self.apply(objs, o)
             A, B = objs["A"], objs["B"]
             f = objs[w]
+        except Unmodelled:
+            t.extra["skipped_malformed_call_accepted"] = t.extra.get("skipped_malformed_call_accepted", 0) + 1
+            return
         except Exception as exc:  # noqa
             raised = exc
         if raised is not None and o[0] == "rt":
@@ -390,7 +411,7 @@ class Ctx:
             want_n = ex["n"]
             if not ex["sat"]:  # the counter's documented meaning is stated below saturation
                 t.check(ob["n"] == want_n, "C14", "C14.count.cbloom" if self.counting else "C14.count.bloom", ENGINE, lambda: rp2(who=who), sig)
-            if self.counting:
+            if self.counting and o[0] != "bad":
                 t.check(ob["cells"] == ex["cells"], "C16", "C16.no_half_update", ENGINE, lambda: rp2(who=who), sig)
             if ex["sat"]:      # a pinned counter: at the upper limit, or at 0 when removals exceed what started as an estimate of distinct keys
                 t.check(ob["n"] == want_n, "C16", "C16.total_pinned", ENGINE, lambda: rp2(who=who), sig)
@@ -650,11 +671,11 @@ def profiles(tier, seed, light=False):
         P.append(dict(base, M=3, K=2, H=5, ntables=10, kinds=("mem", "mem")))
         P.append(dict(base, M=7, K=5, H=9, ntables=6, kinds=("mem", "disk"), maxdepth=3))
         P.append(dict(base, M=8, K=2, H=17, ntables=6, kinds=("disk", "mem"), maxdepth=3))
-        P.append(dict(base, M=9, K=2, H=20, ntables=6, kinds=("mem", "mem"), maxdepth=3))
+        P.append(dict(base, M=9, K=2, H=20, ntables=6, kinds=("mem", "mem"), maxdepth=3, bad=[3]))      # + look-ups the library rejects
         # counting, limits far away
         cb = dict(base, counting=True, amts=[1, 2], cellmax=1000, totmax=1000, maxn=2, maxdepth=3, whos=["A", "B"])
         P.append(dict(cb, M=3, K=2, H=5, ntables=8))
-        P.append(dict(cb, M=4, K=3, H=7, ntables=5, keys=["a", "b"]))
+        P.append(dict(cb, M=4, K=3, H=7, ntables=5, keys=["a", "b"], bad=[1, 2]))      # + additions / removals the library rejects (hash list too short)
         # counting, tiny patched limits (C16)
         P.append(dict(cb, M=3, K=2, H=5, ntables=8, cellmax=3, totmax=5, amts=[1, 2, 4], maxn=6, maxdepth=3, patch_limits=True, keys=["a", "b"]))
     else:
@@ -666,7 +687,7 @@ def profiles(tier, seed, light=False):
         cb = dict(base, counting=True, amts=[1, 2], cellmax=1000, totmax=1000, maxn=3, maxdepth=4)
         P.append(dict(cb, M=3, K=2, H=3, ntables=0, exhaustive=True, keys=["a", "b"], maxdepth=3))
         for (M, K, H) in [(3, 2, 5), (4, 3, 7), (8, 2, 17), (5, 2, 9)]:
-            P.append(dict(cb, M=M, K=K, H=H, ntables=8))
+            P.append(dict(cb, M=M, K=K, H=H, ntables=8, bad=[1, 2, 3] if K == 3 or M == 5 else []))
         for (M, K, H) in [(3, 2, 5), (2, 1, 3), (4, 3, 7)]:
             P.append(dict(cb, M=M, K=K, H=H, ntables=8, cellmax=3, totmax=5, amts=[1, 2, 4, 7], maxn=8, maxdepth=4, patch_limits=True, keys=["a", "b"]))
     # every HISTORY (no state merging) of the smallest instances: behaviour after clear() / reload for every preceding history
